@@ -248,6 +248,9 @@ theorem meetsDemands_eq_all (ctx : Ctx) (pc : PCtx) (r : Request) (sel : List Se
 section W3C
 open AnonModel.VerifierW3C
 
+/-- the request's predicate referents are pairwise different (it is a JSON map) -/
+def requestPredsNodup (r : Request) : Bool := noDup (keys r.preds)
+
 /-- *the credential's issuer is the issuer of the supplied credential definition* -/
 def issuersAgreeW3C (ctx : Ctx) (used : List SelectedW3C) : Bool :=
   used.all (fun s =>
@@ -293,6 +296,8 @@ def meetsConjunctsW3C (ctx : Ctx) (pc : PCtx) (r : Request) (sel : List Selected
    ("credDefsAgree", credDefsAgree ctx usedL),
    ("issuersAgree", issuersAgreeW3C ctx used),
    ("subjectsSigned", subjectsSignedW3C used),
+   ("requestAttrsNodup", requestAttrsNodup r),
+   ("requestPredsNodup", requestPredsNodup r),
    ("attrsServed", attrsServedW3C ctx r used),
    ("predsServed", predsServedW3C ctx r used),
    ("registriesSupplied", registriesSupplied ctx usedL),
@@ -304,7 +309,8 @@ def meetsDemandsW3C (ctx : Ctx) (pc : PCtx) (r : Request) (sel : List SelectedW3
   let used := usedOfW3C sel
   let usedL := used.map w3cAsSelected
   schemasAgree ctx pc usedL && credDefsAgree ctx usedL && issuersAgreeW3C ctx used &&
-  subjectsSignedW3C used && attrsServedW3C ctx r used && predsServedW3C ctx r used &&
+  subjectsSignedW3C used && requestAttrsNodup r && requestPredsNodup r &&
+  attrsServedW3C ctx r used && predsServedW3C ctx r used &&
   registriesSupplied ctx usedL && nonRevProofsOk ctx r usedL && listsComplete ctx
 
 theorem meetsDemandsW3C_eq_all (ctx : Ctx) (pc : PCtx) (r : Request) (sel : List SelectedW3C) :
